@@ -28,6 +28,8 @@ CHECKS = {
          "Held on generated template/data pairs over the documented grammar (variables, if/else, each over scalars and maps with this/@index/@first/@last, nested each, blocks with inheritance, image placeholders, hostile literals) with directive-like, multi-line, non-string, empty and missing data."),
  "C11": ("exploration", "reference map kind -> latest call compared with what an independent reader resolves from w:sectPr through the relationships into the header/footer parts (token, text, PAGE field, alignment, run formatting)", "4/C11",
          "Held on generated call sequences with repeats, page settings, other content, save/open cycles and template rendering; every save is resolved and compared with the latest call per kind."),
+ "C10": ("exploration", "image ledger (unique bytes per addition) compared with what an independent reader resolves from every a:blip through the relationships to the media bytes; extent model within 2 EMU; existing media of opened packages byte-compared", "4/C10",
+         "Held on generated histories of body/cell/template image additions of three formats with hostile names and all size configurations, interleaved with other relationship-creating calls, save/open cycles and opened foreign packages carrying media."),
 }
 PENDING = {}
 ALL = ["C%02d" % i for i in range(1, 21)]
